@@ -7,6 +7,80 @@ ENGINE = 'lean4-model+correspondence'
 
 # id -> (technique, level text, level note, design section)
 CLAIMED = {
+ 'C01': ('Lean 4 proof (mutual structural induction over the tree; stack-machine invariants) composed from the C05/C06/C08 line theorems + differential correspondence',
+         'Theorems: for every well-formed tree (upper-cased distinct property names, values that are decoder '
+         'fixpoints, a list entry iff >= 2 values), running the from_ical stack machine over the serialised items '
+         'rebuilds exactly the tree with its properties in serialisation order (run_items, parse_ser_lines, multiple '
+         'variant), the canonical ordering is idempotent and re-serialisation gives the same items, so '
+         'parse-serialise-parse-serialise is stable (parse_ser_stable, reserialise_same); parse_toIcal composes all '
+         'layers down to the folded text (lines_roundtrip, parts_fromParts, raw_value) for hazard-free items. Typed '
+         'decoders and time-zone construction are abstract parameters (their own laws are C03 / C12). The model of the '
+         'line loop is tied to cal.py by correspondence on fixtures, generated and mutated calendars with the real '
+         'decoders supplying the decode table; types_map, datetime names, lenient classes are regenerated from source.',
+         'Trusted: Lean kernel; tools/extract.py; hand model of Component.from_ical/add/to_ical tied by correspondence; '
+         'decoders enter as a table computed by the real code; ASCII names; findings: value-unescape-nontext, '
+         'param-escape-hazard, bare-cr-in-line, vtimezone-validated-only-at-matching-end.',
+         'DESIGN.md 6/C01'),
+ 'C03': ('Lean 4 proof (arithmetic on decimal digits, div/mod, regex matcher models) + exhaustive/differential correspondence',
+         'Theorems unbounded in the value: DATE, DATE-TIME (floating and Z), TIME (naive), DURATION (every Int second '
+         'count), UTC-OFFSET (|s| < 24 h, never -0000), INTEGER (every Int), BOOLEAN, weekday, frequency, month, PERIOD '
+         '(both forms): encode output is in the RFC 5545 grammar (recognisers written from the RFC) with the right '
+         'value, every grammar-valid text decodes to its RFC value, decode(encode v) = v, and vDDDTypes.from_ical '
+         'dispatches every grammar-valid text to the right decoder, the classes being pairwise disjoint. The TIME UTC '
+         'flag loss is proved as a witness (full statements refuted). FLOAT, GEO, BINARY, URI, CAL-ADDRESS wrap '
+         'float()/repr, base64 and str: outside the proof (assumed library laws), decided by correspondence/oracle.',
+         'Trusted: Lean kernel; tools/extract.py (weekday/frequency tables, regex shapes); hand models of every '
+         'to_ical/from_ical tied by correspondence (all 86 400 times, all offsets, year boundaries / all 3.65 M dates in '
+         'thorough, durations, ints to 2^70, grammar-generated and malformed texts); CPython int() modelled for ASCII; '
+         'datetime domain years 0001-9999, seconds 00-59.',
+         'DESIGN.md 6/C03'),
+ 'C04': ('Lean 4 proof (stack-machine step lemmas lifted over line lists) + differential correspondence + exception/CPU search on the implementation',
+         'Theorems for every state, line and continuation: a property line that cannot be split or decoded inside a '
+         'lenient component changes nothing but that component\'s error list (vevent_isolation, on states, parses and '
+         'trees); lenient means exactly VEVENT on the generated tables; the same line in a strict component, a property '
+         'without parent, END without BEGIN, or END of a VTIMEZONE whose zone cannot be built makes the parse fail '
+         '(ValueError), and these are the ONLY failure classes of the loop (step_failure_cases); single parse needs '
+         'exactly one component. Exception classes raised inside CPython/library code, recursion and CPU time are '
+         'runtime facts outside any model: the oracle searches them on the implementation (random bytes, token soup, '
+         'mutated fixtures, nesting to 64, hostile TZIDs, malformed VTIMEZONEs, overflowing values, both providers).',
+         'Trusted: Lean kernel; hand model of the from_ical loop tied by correspondence on the same hostile inputs; '
+         'partial by nature for "raises nothing else / terminates" (search only).',
+         'DESIGN.md 6/C04'),
+ 'C09': ('Lean 4 proof (scanner lemmas for unfold/split; closure under composition by induction over rewrite lists) + differential correspondence',
+         'Theorems: CRLF->LF (for texts whose CRs are all followed by LF; counterexample otherwise), a leading BOM, any '
+         'number of trailing blank lines, and ANY placement of folds (each with its own CR LF / LF + SP / HT separator) '
+         'leave the unfolded line list unchanged, hence the parse; closure under every composition of these rewrites '
+         '(compose_invariant_text, at most one BOM); upper/lower-casing of property names and of BEGIN/END and their '
+         'values leaves every step of the parser unchanged (case_invariant, via forProperty and the generated '
+         'uname-dispatch flags: a regression of the case fix breaks the proof); parse_invariant combines both. '
+         'str-vs-bytes is UTF-8 decoding, outside the model, decided by the oracle under both providers.',
+         'Trusted: Lean kernel; tools/extract.py; hand models of uFOLD.sub / NEWLINE.split / the line loop tied by '
+         'correspondence (incl. exhaustive strings <= 6 over {CR LF SP HT a}); parameter-name case via parts() '
+         'upper-casing (concrete examples, correspondence); ASCII case mapping.',
+         'DESIGN.md 6/C09'),
+ 'C12': ('Lean 4 proof (sortedness/lookup invariants over transition tables; cache state machine) + differential correspondence under both providers',
+         'Theorems for the in-repo (pytz) path: with onsets further apart than the offset jump, get_transitions is '
+         'sorted by UTC and the DstTzInfo lookup returns, for every instant after the first onset, the offset, name and '
+         'zero DST of the observance with the latest onset (local - TZOFFSETFROM) not after it (rfc_onset_partial); the '
+         'tz cache machine: a calendar whose VTIMEZONE precedes its uses and whose id is fresh gets its own definition; '
+         'decide witnesses for the recorded findings (first-wins cache, definition after use, onsets closer than the '
+         'jump). The zoneinfo path delegates to dateutil.tz.tzical (external): tied by correspondence and the oracle '
+         'only - partial, named.',
+         'Trusted: Lean kernel; hand models of _extract_offsets/get_transitions/lookup/cache tied by correspondence on '
+         'generated VTIMEZONEs at each onset -1s/0/+1s under both providers; RRULE expansion is dateutil\'s.',
+         'DESIGN.md 6/C12'),
+ 'C13': ('Lean 4 proof (search invariant over the generated step list; induction along the transition chain) + differential correspondence over all zones',
+         'Theorems: the coarse-to-fine search over the step list regenerated from cal.py finds the next offset change '
+         'exactly when the old offset does not return within the largest step (search_finds_next); along such a chain '
+         'the generator emits exactly one segment per transition with the zone\'s offset, name and kind (gen_onset); '
+         'the generated component is well-formed; read by RFC onset rules it equals the zone at every instant of the '
+         'window outside the gap between a transition and its generated onset (gen_faithful_partial); the onset shift '
+         'and the short-excursion loss are proved as decide witnesses (recorded findings). Applicability is decided per '
+         'zone by a table check proved sound (chainOK_sound), not assumed.',
+         'Trusted: Lean kernel; tools/extract.py (step list); hand model of from_tzinfo tied by correspondence against '
+         'Timezone.from_tzid for every zone id x both providers x 3 windows (thorough) / 40 zones (quick); tz database '
+         'content is the provider\'s.',
+         'DESIGN.md 6/C13'),
  'C07': ('Lean 4 proof (induction on the string) over the translated replace chain + differential correspondence',
          'Theorems for every string: decode(encode s) = norm s; the encoded form is in the escaped-token language (no raw LF, '
          'no unescaped ; or ,); CATEGORIES join/split is item-wise lossless. The replace chain and the decoder class are '
